@@ -154,6 +154,17 @@ def tamper_cases(draw):
         c["has_change"] = True
     if c["tamper"] == "in_paths_copied_from_other_input":
         c["n_in"] = 2
+    # tamperings that exist for one wallet kind only get that kind (instead of being discarded half the time)
+    if c["tamper"] in ("in_witness_utxo_contradicts_prev_tx", "both_utxo_forms_consistent",
+                       "p2wsh_prev_tx_only_honest", "in_p2wsh_prev_tx_only_foreign_script"):
+        c["kind"] = "p2wsh"
+    if c["tamper"] in ("in_p2sh_as_witness_utxo_foreign_script", "in_prev_tx_amount", "in_prev_tx_other"):
+        c["kind"] = "p2sh"
+    if c["tamper"] in ("out_keys_from_one_cosigner", "out_changed_quorum", "in_changed_quorum_script",
+                       "out_noncanonical_script_all_keys", "out_script_one_genuine_key_rest_foreign") and c["n"] < 2:
+        c["n"], c["m"] = 2, min(c["m"], 2)
+        if len(c["seeds"]) < 2:
+            c["seeds"] = list(c["seeds"]) + [c["attacker_seed"][:16][::-1]]
     return c
 
 
